@@ -205,12 +205,18 @@ def attribute(m, mod='l1'):
             why = 'implementation rejected %s (%s) although every guard of the specification holds' % (et, (m.get('impl_err') or '')[:160])
     elif m['kind'] in ('state', 'resp'):
         tb = target_bridge(ev)
+        created = None
+        if et == 'CreateBridge':       # the bridge it creates is the only one it may touch
+            created = (m.get('spec_resp') or m.get('impl_resp') or {}).get('bridge')
+            created = str(created) if created is not None else None
         for p in m.get('fields') or []:
             full = p if m['kind'] == 'state' else 'resp.' + et + '.' + p
             tags |= field_tags(mod, full)
             comps = p.split('.')
             if mod == 'l1' and m['kind'] == 'state' and comps[0] in BRIDGE_KEYED and len(comps) > 1 and tb is not None and comps[1] != tb and et != 'CreateBridge':
                 tags.add('C01')      # an operation addressed to one bridge changed another bridge's records
+            if mod == 'l1' and m['kind'] == 'state' and comps[0] in BRIDGE_KEYED and len(comps) > 1 and created is not None and comps[1] != created and not comps[1].startswith('?'):
+                tags.add('C01')      # creating a bridge changed the records of an existing one
             if mod == 'l1' and m['kind'] == 'state' and comps[0] == 'bal' and len(comps) > 1 and comps[1].startswith('esc') and tb is not None and comps[1][3:] != tb:
                 tags.add('C01')
         tags |= set(T['event_all_fields'].get(et, []))
@@ -568,7 +574,7 @@ def run_trace(name, tier, seed, work):
         elif l.startswith('"DIV '):
             d = json.loads(json.loads(l)[4:])
             rec = lines[d['line'] - 1]
-            m = dict(kind=d['kind'], event=rec['e'], impl_ok=rec['ok'], spec_ok=d.get('spec_ok', rec['ok']), impl_err=rec.get('err'), failed_guards=d.get('failed') or [],
+            m = dict(kind=d['kind'], event=rec['e'], impl_ok=rec['ok'], spec_ok=d.get('spec_ok', rec['ok']), impl_err=rec.get('err'), failed_guards=d.get('failed') or [], impl_resp=rec.get('resp'),
                      path=[], trace_line=d['line'], run=rec.get('run'))
             if d['kind'] == 'state':
                 m['fields'] = []
